@@ -5,6 +5,7 @@
    geometry-level predicates being exact (contains => intersects, self
    containment, rect-as-polygon for polygon pairs) are checked on every run as
    law flags computed from the implementation's own answers. *)
+From Coq Require Import Lia.
 From GJ Require Import Base Kernel Series Ring Pairs Obj ObjSpec ObjProofs BoxLaws ContainsBoxes CoversBoxes.
 Open Scope Z_scope.
 
@@ -57,6 +58,11 @@ Proof. exact o_contains_boxes. Qed.
 Theorem C09_contains_implies_rect_covers : forall a b, obj_wf a -> obj_wf b -> o_empty b = false ->
   o_contains a b = true -> rect_contains_rect (o_rect a) (o_rect b) = true.
 Proof. exact o_contains_covers. Qed.
+
+(* non-vacuity: a rectangle containing a two-point line *)
+Example C09_covers_hypotheses_hold_somewhere : obj_wf (ORect ((0,0),(4,4))) /\ obj_wf (OLine [(1,1);(3,2)]) /\ o_empty (OLine [(1,1);(3,2)]) = false /\
+  o_contains (ORect ((0,0),(4,4))) (OLine [(1,1);(3,2)]) = true.
+Proof. repeat split; try (cbn; lia); vm_compute; reflexivity. Qed.
 
 Print Assumptions C09_intersects_implies_rects_meet.
 Print Assumptions C09_contains_implies_rect_covers.
